@@ -158,6 +158,14 @@ func cmdCheck(args []string) {
 		}
 		targets = append(targets, target{k, sp, fn})
 	}
+	// stale work directories of checks that were killed
+	if old, _ := filepath.Glob(filepath.Join(os.TempDir(), "govc-C[0-9]*")); len(old) > 0 {
+		for _, d := range old {
+			if fi, err := os.Stat(d); err == nil && time.Since(fi.ModTime()) > 30*time.Minute {
+				os.RemoveAll(d)
+			}
+		}
+	}
 	work, _ := os.MkdirTemp("", "govc-"+id)
 	defer os.RemoveAll(work)
 	opt := &solveOpts{timeout: 10, fast: 3, workers: 10, workDir: work, seed: seed}
@@ -468,6 +476,7 @@ func cmdCheck(args []string) {
 		writeEvidence(id, *tier, seed, &cfg, L, results, total, discharged+len(knownHit), covers, coverOK, byBackend, sumT, maxT, samples, knownHit, len(violations), wall)
 	}
 	if len(violations) > 0 {
+		os.RemoveAll(work) // os.Exit skips the deferred clean-up
 		os.Exit(1)
 	}
 }
